@@ -36,6 +36,10 @@ pub trait Compiler {
 
     fn compile(&mut self, tir: &AnyTir) -> Result<CompiledTx, Error>;
     fn reduce_op(&self, op: Self::CompilerOp) -> Result<Self::Expression, crate::reduce::Error>;
+
+    /// Forgets whatever earlier compilations left behind in the instance, so that the next
+    /// transaction is compiled exactly as a fresh instance would compile it.
+    fn reset(&mut self) {}
 }
 
 impl<C> Visitor for C
